@@ -124,6 +124,12 @@ def run_pipe(case):
             stages.append(dump_dm(cur))
         manual = dump_result(build_dmaker(case["dmaker"]).evaluate(cur))
         out = {"evaluate": dump_result(pipe.evaluate(dm)), "manual": manual}
+        if case["nest"] in ("last", "middle"):
+            # transform() applies the pipeline's own steps but the last: with a pipeline as the LAST step that is the
+            # first transformer only (the inner pipeline decides, it does not transform here); as a middle step the
+            # inner pipeline contributes its transformers
+            out["transform"] = dump_dm(pipe.transform(dm))
+            out["manual_transform"] = stages[1] if case["nest"] == "last" else stages[-1]
         if case["nest"] is None:
             out["transform"] = dump_dm(pipe.transform(dm))
             out["manual_transform"] = stages[-1]
